@@ -12,6 +12,18 @@ CLAIMS = {
  "C11": ("other", "DESIGN.md §3 C11", "SSA write-effect analysis + pooled-buffer confinement (typestate/ownership) + unsafe-view operand rooting",
    "Structural interference-freedom of package otp in every build configuration: no function outside package initialisation writes package-level state (write effects propagated through callees, closures and parameter aliasing); every sync.Pool buffer is confined to the call that took it (never returned, stored, captured, re-sliced upward, used with an un-reset length or used after a non-deferred Put); every no-copy string view is over a per-call allocation that is not written afterwards; exported results are not rooted at package state or pools; no goroutine/channel/lock in the library. These are necessary conditions of the property decided on all paths; they are not a dynamic race detector.",
    "Trusted: go/ssa, sync.Pool semantics, the table of non-retaining callees. Assumes callers do not assign exported package variables. Does not decide the Go memory model or runtime."),
+ "C09": ("proof", "DESIGN.md §3 C09", "whole-program taint / information-flow analysis over SSA with inclusion-based points-to",
+   "Every comparison, map lookup and external call that an HMAC-derived value can reach — on every path of every function of otp, wasm and internal/app, in the native and js/wasm configurations — is an obligation; it is discharged only if the other operand is a constant / carries no caller data, or the callee is a constant-time comparator (crypto/subtle, hmac.Equal) or a pure formatting/output sink. The analysis is an over-approximation (flow- and context-insensitive heap, explicit flows), so no report means no explicit flow from HMAC output and caller data into an early-exit comparison exists; a floor requires each configuration's constant-time site to be reached by both labels.",
+   "Trusted: go/ssa + VTA call graph, stdlib summaries (result depends on all arguments), crypto/subtle being constant-time, fasthttp request-reader/sink summaries. Not covered: micro-architectural timing, implicit flows, the checked-in otp.wasm binary."),
+ "C12": ("other", "DESIGN.md §3 C12", "SSA write-effect analysis rooted by origin terms (parameter / package-variable / pool / local)",
+   "For every exported function and method of otp: no store, map update, copy destination, append first operand or writing callee — directly or via module callees, closures and returned aliases — is rooted at memory reachable from a parameter; no function outside package initialisation writes the defaults, the registry or any package variable; no reference result is rooted at an argument's mutable storage. Structural necessary-and-sufficient condition for 'never modified' within the trusted callee table; decided on all paths.",
+   "Trusted: read-only table of external callees; go/ssa. Does not cover mutation through reflection or unsafe (absent apart from the checked string view)."),
+ "C13": ("other", "DESIGN.md §3 C13", "per-return verdict pairing with branch-condition nilness + taint of secret/HMAC labels into error constructors",
+   "Every return of every (bool, error) function of the module is classified, with phis split per edge: (true, nil), (false, provably non-nil) or forwarded from another checked verdict function; anything else is reported. Information flow shows that no argument of an error constructor and no error result of an exported operation carries the secret or HMAC-derived data.",
+   "Trusted: go/ssa; base32/hex decode errors carry positions only; sentinel errors are never reassigned (checked). Logging is not an error channel per the statement."),
+ "C14": ("other", "DESIGN.md §3 C14", "decision-table extraction: path enumeration + three-valued interval abstract interpretation over constant-induced cells",
+   "The admission functions touch lengths, flags and enumerators only through comparisons with constants, so their accept sets are computed exactly by abstract interpretation over the finite cell grid induced by every constant in the code and in the property, and compared with the property's predicate (input admission: all flag sets x formats x password hashes x single fields and field pairs; suite usability: full product). Entry-point rules show the validators run first, on the caller's own suite and input, and nothing else conditions on the input.",
+   "Domain restricted to the defined ChallengeFormat / PasswordHashAlgorithm enumerators; user-defined Suite implementations excluded by the property. Trusted: go/ssa."),
 }
 
 PENDING_REASON = "not claimed at this commit: the rule set planned in DESIGN.md §3 is not implemented yet (no check is registered, so nothing is asserted)"
